@@ -48,7 +48,9 @@ AmbiguousImports(imps) ==
   \E id \in DOMAIN imps : \E a, b \in DOMAIN imps[id] : imps[id][a][2] = imps[id][b][2] /\ imps[id][a][1] # imps[id][b][1]
 
 \* the specification leaves a choice open for this project (C05 / Appendix A): which of several
-\* matching imports a name resolves to, which of several kinds registered under one key is seen
+\* matching imports a name resolves to, which of several kinds registered under one key is seen.
+\* (C12 compares modulo both; C13 only modulo the second: the pick among a file's own imports must itself be a
+\* function of that file's text and of the facts about its imports, not of what other files import)
 FreeChoice(e) == AmbiguousKeys(e.kk) \/ AmbiguousImports(e.imps)
 
 (* Judgement of one validated observation *)
@@ -274,7 +276,7 @@ JudgeValidate(e) ==
   LET s == VStore(e)
       full == Fld(e, "obs")
       keys == IF full THEN KeysOf(e.obs) ELSE <<>>
-      M13 == IF full /\ ~FreeChoice(e) THEN {k \in DOMAIN e.obs : e.obs[k].id \in DOMAIN s} ELSE {}
+      M13 == IF full /\ ~AmbiguousKeys(e.kk) THEN {k \in DOMAIN e.obs : e.obs[k].id \in DOMAIN s} ELSE {}
       K13(k) == <<e.obs[k].id, s[e.obs[k].id], FactsOf(e.obs[k], keys)>>
   IN /\ J("C01", e, "result keys differ from the ids held",
           SeqToSet(e.keys) = DOMAIN s /\ Len(e.keys) = Cardinality(DOMAIN s))
@@ -299,7 +301,7 @@ NextMemo13(e) ==
   LET s == VStore(e)
       full == Fld(e, "obs")
       keys == IF full THEN KeysOf(e.obs) ELSE <<>>
-      M13 == IF full /\ ~FreeChoice(e) THEN {k \in DOMAIN e.obs : e.obs[k].id \in DOMAIN s} ELSE {}
+      M13 == IF full /\ ~AmbiguousKeys(e.kk) THEN {k \in DOMAIN e.obs : e.obs[k].id \in DOMAIN s} ELSE {}
       K13(k) == <<e.obs[k].id, s[e.obs[k].id], FactsOf(e.obs[k], keys)>>
   IN IF ~full THEN memo13
      ELSE [x \in DOMAIN memo13 \cup {K13(k) : k \in M13} |->
